@@ -615,6 +615,14 @@ func L1Validation(side string, thorough bool) []MethodCase {
 		child := &TypeDef{Name: fmt.Sprintf("ChildV%d", i), Kind: "type", Extend: "BaseV", Attrs: []*Attr{A("name", P(KString))}, Required: reqs}
 		add(A("aa", User(child.Name)), LocBody, true, []*TypeDef{baseV, child}, map[string]string{"valid": "extend-required-" + strings.Join(reqs, "+"), "pos": "extended-type"})
 	}
+	// Reference: attributes declared by name inherit their definition and the referenced type's
+	// required names; the referring type adds a Required list of its own, or none
+	refBase := &TypeDef{Name: "RefBaseV", Kind: "type", Attrs: []*Attr{A("id", P(KString)), A("email", WithV(P(KString), &Valid{MinLen: I(3)})), A("age", WithV(P(KInt), &Valid{Min: F(1)}))}, Required: []string{"id", "email"}}
+	for i, reqs := range [][]string{nil, {"name"}, {"id", "name"}, {"name", "email"}, {"age"}} {
+		child := &TypeDef{Name: fmt.Sprintf("RefChildV%d", i), Kind: "type", Reference: "RefBaseV",
+			Attrs: []*Attr{{Name: "id", Inherit: true}, {Name: "email", Inherit: true}, {Name: "age", Inherit: true}, A("name", P(KString))}, Required: reqs}
+		add(A("aa", User(child.Name)), LocBody, true, []*TypeDef{refBase, child}, map[string]string{"valid": "reference-required-" + strings.Join(reqs, "+"), "pos": "referring-type"})
+	}
 	// required checks on nilable and non-nilable types
 	for _, te := range typeMenu(true) {
 		if len(te.Defs) > 0 || te.Name == "any" {
